@@ -46,7 +46,7 @@ def isr_clause(ctx):
 
 
 def run(ctx):
-    sc.run_sched(ctx, META, ['Librfn.Props.C03'], REQUIRED, 'C03')
+    sc.run_sched(ctx, META, ['Librfn.Props.C03', 'Librfn.Props.C06'], REQUIRED + ['Librfn.C06.wakeup_with_isr', 'Librfn.C06.model_refines_monitor'], 'C03')
     if not ctx.violations:
         isr_clause(ctx)
 
